@@ -120,3 +120,35 @@ def rule_dispatch_table(col, facts):
         col.check(R, "%s:table" % "::".join(fname.split("::")[-2:]), bad is None,
                   "for mantissa radix %s / exponent base %s the dispatcher reaches %s, expected exactly the %s back-end" % (bad if bad else (0, 0, 0, 0)), f.loc())
     col.floor(R, "(radix, base) x dispatcher entries", n, 3)
+
+
+def rule_check_radix_table(col, facts):
+    """KEY-radix-pairs: the parse entry points (ParseFloat::parse_complete / parse_partial / fast_path_*) let a
+    format through to the back-ends only if its exponent base equals its mantissa radix, or the pair is one of the
+    five the back-ends can scale between: (4,2) (8,2) (16,2) (32,2) (16,4) - the same set the writer asserts.
+    Every path to the back-end call is evaluated for every (radix, base) in 2..36 x 2..36; the set of admitted
+    pairs must be exactly that.  Another pair (8,4), (32,8)... reaches scaling code that assumes the exponent is
+    a multiple of the base's bits: wrong values in release, a debug assertion otherwise."""
+    if "power-of-two" not in facts.config and "radix" not in facts.config:
+        return
+    R = "KEY-radix-pairs"
+    mixed = {(4, 2), (8, 2), (16, 2), (32, 2), (16, 4)}
+    n = 0
+    for name in ("parse_complete", "parse_partial", "fast_path_complete", "fast_path_partial"):
+        f = facts.fn(PF + "parse::ParseFloat::" + name)
+        tg = {bb for bb, c, a, d, t in f.calls() if callee_name(c) == PF + "parse::" + name}
+        col.check(R, name + ":backend-call", len(tg) == 1, "expected one call of parse::%s, found %d" % (name, len(tg)), f.loc())
+        if len(tg) != 1:
+            continue
+        paths = enum_paths(f, 0, tg)
+        bad = None
+        for r in range(2, 37):
+            for b in range(2, 37):
+                n += 1
+                got = any(all(holds(e, p, r, b) for e, p in atoms) for t, atoms in paths)
+                want = (r == b) or ((r, b) in mixed)
+                if got != want and bad is None:
+                    bad = (r, b, got)
+        col.check(R, "ParseFloat::%s:admitted-pairs" % name, bad is None,
+                  "mantissa radix %s with exponent base %s is %s by the radix check, but the back-ends %s it" % ((bad[0], bad[1], "admitted" if bad[2] else "rejected", "cannot scale" if bad[2] else "support") if bad else (0, 0, "", "")), f.loc())
+    col.floor(R, "(radix, base) x entry point evaluations", n, 4 * 35 * 35)
